@@ -18,10 +18,10 @@ Definition par_sites : list par_site :=
      ps_src := SrcRange; ps_adaptors := ["map"]; ps_sink := SinkCollectVec;
      ps_post := [PostSeqFor]; ps_shared := [] |};
   {| ps_file := "algorithms/shortest_path/dijkstra.rs"; ps_fn := "all_pairs"; ps_via := "all_pairs_par_iter"; ps_entry := "into_par_iter";
-     ps_src := SrcVec; ps_adaptors := ["map"]; ps_sink := SinkCollectVec;
+     ps_src := SrcVec; ps_adaptors := ["map"]; ps_sink := SinkCollectResultVec;
      ps_post := [PostSeqIter]; ps_shared := [] |};
   {| ps_file := "algorithms/shortest_path/dijkstra.rs"; ps_fn := "multi_source"; ps_via := ""; ps_entry := "into_par_iter";
-     ps_src := SrcVec; ps_adaptors := ["map"]; ps_sink := SinkCollectVec;
+     ps_src := SrcVec; ps_adaptors := ["map"]; ps_sink := SinkCollectResultVec;
      ps_post := [PostSeqIter]; ps_shared := [] |}].
 
 (* node-count thresholds `number_of_nodes() > K` of the functions with a parallel path *)
